@@ -128,7 +128,7 @@ _num = re.compile(rb"^[+-]?(\d+\.?\d*|\.\d+)([eE][+-]?\d+)?j?$")
 
 def mutate(data, rng):
     """one structure-aware mutation (may be composed)"""
-    n = int(rng.integers(0, 16))
+    n = int(rng.integers(0, 18))
     if not data:
         return bytes(rng.integers(0, 256, int(rng.integers(0, 20)), dtype=np.uint8))
     if n == 0:      # truncate
@@ -200,6 +200,33 @@ def mutate(data, rng):
         p = int(rng.integers(0, len(data)))
         q = min(len(data), p + int(rng.integers(1, 40)))
         return data[:p] + data[p:q] * int(rng.integers(2, 60)) + data[q:]
+    elif n in (15, 16):   # copy a value between two lines with the same key
+        # (e.g. make two "f:" entries equal, or two rows of numbers equal)
+        lines = data.split(b"\n")
+        keyed = {}
+        for k, ln in enumerate(lines):
+            st = ln.strip()
+            if b":" in st:
+                key = st.lstrip(b"- ").split(b":", 1)[0]
+                keyed.setdefault(key, []).append(k)
+            elif st and st.split()[0][:1].isdigit() or st[:1] in b"+-.":
+                keyed.setdefault(b"<row>", []).append(k)
+        multi = [v for v in keyed.values() if len(v) >= 2]
+        if multi:
+            grp = multi[int(rng.integers(0, len(multi)))]
+            a, b_ = rng.choice(len(grp), 2, replace=False)
+            src, dst = lines[grp[int(a)]], lines[grp[int(b_)]]
+            if b":" in src and b":" in dst:
+                lines[grp[int(b_)]] = dst.split(b":", 1)[0] + b":" + \
+                    src.split(b":", 1)[1]
+            else:
+                # copy the first field (the frequency of a data row)
+                fs, fd = src.split(None, 1), dst.split(None, 1)
+                if fs and fd:
+                    lead = dst[:len(dst) - len(dst.lstrip())]
+                    lines[grp[int(b_)]] = lead + fs[0] + b" " + \
+                        (fd[1] if len(fd) > 1 else b"")
+        return b"\n".join(lines)
     else:           # empty / whitespace / NULs
         return bytes(rng.choice([b"", b"\n", b" ", b"\x00", b"#", b"# ",
                                  b"[Version] 2.0", b"#VNACal 1.0\n", b"---\n",
